@@ -64,6 +64,7 @@ class State:
         self.step_base = z3.IntVal(0)
         self.step_snap = None
         self.step_no = 0
+        self.user_start_time = None   # virtual time at which awaited user code first ran on this path
         self.user_awaits = 0      # how many times this path handed control to opaque user code
         self.step_time = None     # ghost: virtual time at which the current step of an async generator began
         self.tick_time = None     # ghost: virtual time of the previous `yield` of an async generator (entry time before the first)
@@ -101,6 +102,7 @@ class State:
         s.step_snap = self.step_snap
         s.step_no = self.step_no
         s.user_awaits = self.user_awaits
+        s.user_start_time = self.user_start_time
         s.tick_time = self.tick_time
         s.step_time = self.step_time
         s.epoch_bound = self.epoch_bound
